@@ -21,6 +21,8 @@ def run(ctx):
         if ln:
             bad.setdefault(ln, o)
     n_release = sum(1 for n in walk_no_nested(fi.node) if isinstance(n, ast.Call) and sem._sem_call(n, "release") is n)
+    n_release += sum(1 for n in walk_no_nested(fi.node) if isinstance(n, ast.Attribute) and n.attr == "release" and isinstance(n.value, ast.Attribute)
+                     and n.value.attr == sem.info["sem"] and not isinstance(getattr(n, "_parent", None), ast.Call))
     if bad:
         for ln, o in sorted(bad.items()):
             r1.violation(construct, f"release() at line {ln} is reachable on a path that never acquired a core "
@@ -81,8 +83,9 @@ def run(ctx):
         for n in walk_no_nested(sd.node):
             if isinstance(n, ast.Return) and isinstance(n.value, ast.Call):
                 c = idx.canon(n.value.func, sd.module)
-                if c in ("asyncio.Semaphore", "asyncio.BoundedSemaphore") and len(n.value.args) == 1:
-                    a = n.value.args[0]
+                sargs = list(n.value.args) + [k.value for k in n.value.keywords if k.arg == "value"]
+                if c in ("asyncio.Semaphore", "asyncio.BoundedSemaphore") and len(sargs) == 1:
+                    a = sargs[0]
                     if isinstance(a, ast.Attribute) and dotted(a.value) == "self":
                         info["max_cores"] = a.attr
                         ok = True
